@@ -111,13 +111,17 @@ def plan(ctx):
     units = []
     for name in names:
         if ctx.quick:
-            shapes = p0 + fam.select(p1, 100, ctx.seed, name) + fam.select(p2, 150, ctx.seed, name)
+            shapes = p0 + p1 + fam.select(p2, 100, ctx.seed, name)
         else:
             shapes = p0 + p1 + fam.select(p2, 6000, ctx.seed, name) + fam.select(fam.prop(3), 1500, ctx.seed, name)
         # split per logic into chunks for load balance
         n = 4 if ctx.quick else 16
         for k in range(n):
             units.append((name, shapes[k::n], ctx.seed, True))
+        # directed family: depth-1 sentence against depth-1 sentence (default options)
+        d1 = fam.depth1_pairs()
+        for k in range(2):
+            units.append((name, d1[k::2], ctx.seed, False))
     return units
 
 
@@ -150,7 +154,7 @@ def run(ctx):
     rep.coverage = dict(
         states=paths, transitions=runs, traces_validated_against_impl=0, samples=samples,
         shapes_times_logics=shapes, z3_valid=valid, z3_invalid=invalid,
-        bounds=dict(family='P(0), P(1) (100 per logic), P(2) (150 per logic) selected by seed' if ctx.quick
+        bounds=dict(family='P(0), P(1) complete, 100 of P(2) per logic by seed, 342 depth-1 pairs (default options)' if ctx.quick
                     else 'P(0), P(1) complete, 6000 of P(2) and 1500 of P(3) per logic by seed',
                     letters='<= 3', premises='<= 2', options='both optimisation flags symbolic (4 paths)',
                     order_seed=ctx.seed),
